@@ -8,8 +8,9 @@
 (* smp = -2: as smp = 0 and in addition every location symbol (LocAll:       *)
 (*          ordinary, the origin (0,0), only lat 0, only lon 0) on every    *)
 (*          child and every update; in all other entries the location       *)
-(*          symbols of each case are drawn by TLC (DrawLoc: 5/8 ordinary,   *)
-(*          1/8 each origin / lat 0 / lon 0).                               *)
+(*          symbols of each case are drawn by TLC (DrawLoc: 5/11 ordinary,  *)
+(*          1/11 each origin / lat 0 / lon 0 / changeset 0 / version 0 /    *)
+(*          both 0).                                                        *)
 (* smp = 0: every stored list of exactly L updates over n children (child   *)
 (*          un of a way not annotated, 0 = fully annotated) and times 1..T, *)
 (*          every t1 <= t2 in 0..T (exhaustive);                            *)
@@ -39,7 +40,7 @@ Lens(k, n, L, T, un) == [l \in 1 .. L + 1 |-> E(k, n, l - 1, T, un, 0)]
 OwnLens(k, n, L, T, un) == [l \in 1 .. L + 1 |-> E(k, n, l - 1, T, un, -1)]
 
 QuickPlan ==
-     << E("way", 1, 0, 2, 0, -2), E("way", 1, 1, 2, 0, -2) >>
+     << E("way", 1, 0, 2, 0, -2), E("way", 1, 1, 2, 0, -2), E("relation", 1, 1, 1, 0, -2) >>
   \o OwnLens("way", 1, 2, 2, 0) \o << E("relation", 1, 1, 2, 0, -1) >>
   \o Lens("way", 1, 3, 2, 0) \o Lens("way", 2, 3, 2, 0) \o Lens("way", 2, 2, 2, 1)
   \o Lens("relation", 1, 2, 2, 0) \o Lens("relation", 2, 2, 2, 0) \o Lens("relation", 3, 2, 2, 0)
@@ -71,8 +72,8 @@ GroupEntryCases(e) ==
                   [i \in 1 .. e.m |-> RandomElement(MemberChoices)], DrawOwn(e.T)) :
           f \in RandomSubset(e.smp, [1 .. e.L -> Choice("way", e.n, e.T)])}
 \* (the argument is unused: TLC evaluates a definition without parameters once and would hand every point the same draw)
-LocOfDraw(r) == IF r <= 5 THEN "n" ELSE IF r = 6 THEN "o" ELSE IF r = 7 THEN "la" ELSE "lo"
-DrawLoc(j) == LocOfDraw(RandomElement(1 .. 8))
+LocOfDraw(r) == IF r <= 5 THEN "n" ELSE <<"o", "la", "lo", "c0", "v0", "cv0">>[r - 5]
+DrawLoc(j) == LocOfDraw(RandomElement(1 .. 11))
 Reloc(c) ==
   LET chs == c.children  ups == c.updates IN
   [c EXCEPT !.children = [j \in DOMAIN chs |-> IF Annotated(chs[j]) THEN SetLoc(chs[j], DrawLoc(j)) ELSE chs[j]],
